@@ -46,3 +46,6 @@ def run(ctx):
     ctx.floor("T1.reader_functions", n, 8)
     dmlrules.row_count_origin(ctx, "T2.ROW-COUNT-ORIGIN")
     dmlrules.sib_matrix(ctx, "T3.ROW-COUNT-CELLS", {k: ["row_count"] for k in ("insert", "insert_cached", "insert_batch", "bulk_insert", "delete")})
+    # T4 (shared with C10 X2): UPDATE removes the old index entry before inserting the new one — with the reverse order an UPDATE
+    # that rewrites an indexed column with its current value drops the row's only entry and a later INSERT of that key is accepted.
+    dmlrules.index_delete_before_insert(ctx, "T4.DELETE-THEN-INSERT", [dmlrules.ENTRIES["update"]])
